@@ -390,3 +390,72 @@ def carried_by(values_t, node_t, key, fl=None):
         if en and en[0] in ("elem", "key") and strip_wrappers(en[1]) in (("attr", na[0], "nodes"), na[0]):
             return na[0]
     return None
+
+
+def reachable_none_aware(fi, start, avoid=()):
+    """cfg nodes reachable from `start`, not following the branch of an `if x is None` / `if x is not None` / `if x` /
+    `if not x` test that cannot be taken because x was bound to None on the way and not rebound since (the path
+    `except E: x = None` ... `if x is None: continue` does not go on behind the test)."""
+    cfg = fi.cfg
+    avoid = set(avoid)
+
+    def none_binding(n):
+        """names bound to the constant None / names bound to anything else at node n"""
+        nn, other = set(), set()
+        if n.ast is None or n.kind not in ("stmt",):
+            if n.kind in ("for", "with", "except") and n.ast is not None:
+                tgt = getattr(n.ast, "target", None) or getattr(n.ast, "name", None)
+                if isinstance(tgt, ast.AST):
+                    other |= {x.id for x in ast.walk(tgt) if isinstance(x, ast.Name)}
+                elif isinstance(tgt, str):
+                    other.add(tgt)
+            return nn, other
+        st = n.ast
+        if isinstance(st, ast.Assign) and len(st.targets) == 1 and isinstance(st.targets[0], ast.Name) and isinstance(st.value, ast.Constant) and st.value.value is None:
+            nn.add(st.targets[0].id)
+            return nn, other
+        for x in ast.walk(st):
+            if isinstance(x, ast.Name) and isinstance(x.ctx, (ast.Store, ast.Del)):
+                other.add(x.id)
+        return nn, other
+
+    def dead_label(n, known):
+        if n.kind != "if":
+            return None
+        t = n.ast.test
+        neg = False
+        if isinstance(t, ast.UnaryOp) and isinstance(t.op, ast.Not):
+            t, neg = t.operand, True
+        name, taken_when_none = None, None
+        if isinstance(t, ast.Compare) and len(t.ops) == 1 and isinstance(t.left, ast.Name) and isinstance(t.comparators[0], ast.Constant) and \
+                t.comparators[0].value is None and isinstance(t.ops[0], (ast.Is, ast.IsNot)):
+            name = t.left.id
+            taken_when_none = "T" if isinstance(t.ops[0], ast.Is) else "F"
+        elif isinstance(t, ast.Name):
+            name, taken_when_none = t.id, "F"
+        if name is None or name not in known:
+            return None
+        if neg:
+            taken_when_none = "F" if taken_when_none == "T" else "T"
+        return "F" if taken_when_none == "T" else "T"
+
+    seen = set()
+    out = set()
+    nn0, _ = none_binding(cfg.nodes[start])
+    work = [(start, frozenset(nn0))]
+    while work:
+        nid, known = work.pop()
+        n = cfg.nodes[nid]
+        dead = dead_label(n, known)
+        for dst, label in cfg.succ[nid]:
+            if label == dead or dst in avoid:
+                continue
+            dn = cfg.nodes[dst]
+            nn, other = none_binding(dn)
+            k2 = frozenset((known - other) | nn)
+            if (dst, k2) in seen:
+                continue
+            seen.add((dst, k2))
+            out.add(dst)
+            work.append((dst, k2))
+    return out
